@@ -495,6 +495,86 @@ func runCase(c *kase, a *acc) {
 			a.fail("merge/not-equal/Merge", c, "e := New(shape); e.Merge(h); e.Equals(h)", nil, []bool{m1, m2}, "true")
 		}
 	}
+	if c.rt {
+		// Merge twice = every count doubled; Reset restores the empty histogram of the
+		// shape, and the reset histogram is fully usable again (same records -> Equal).
+		cur = "New"
+		d := hdrhist.New(c.sh.Min, c.sh.Max, c.sh.Sig)
+		cur = "Merge"
+		dr := d.Merge(h) + d.Merge(h)
+		a.calls += 3
+		a.asserted += 2
+		if dr != 0 || d.TotalCount() != 2*total {
+			a.fail("merge/total-mismatch/Merge-twice", c, "d := New(shape); d.Merge(h); d.Merge(h); d.TotalCount()", nil, fmt.Sprintf("dropped=%d total=%d", dr, d.TotalCount()), fmt.Sprint(2*total))
+		}
+		cur = "Reset"
+		d.Reset()
+		cur = "New"
+		fresh := hdrhist.New(c.sh.Min, c.sh.Max, c.sh.Sig)
+		cur = "Equals"
+		a.calls += 4
+		a.asserted += 2
+		if d.TotalCount() != 0 || !d.Equals(fresh) || !fresh.Equals(d) {
+			a.fail("reset/not-empty/Reset", c, "d.Reset(); d.Equals(New(shape))", nil, fmt.Sprintf("total=%d equals=%v", d.TotalCount(), d.Equals(fresh)), "total 0 and Equals")
+		} else {
+			for _, r := range model {
+				cur, curArg = "RecordValues", r.V
+				if err := d.RecordValues(r.V, r.N); err != nil {
+					a.fail("reset/not-usable-after/Reset", c, "RecordValues after Reset", r.V, err.Error(), "nil")
+				}
+				a.calls++
+			}
+			curArg = nil
+			cur = "Equals"
+			a.asserted++
+			if !d.Equals(h) || d.TotalCount() != total {
+				a.fail("reset/not-usable-after/Reset", c, "same records after Reset: d.Equals(h)", nil, fmt.Sprintf("equals=%v total=%d", d.Equals(h), d.TotalCount()), fmt.Sprintf("true, %d", total))
+			}
+		}
+		// RecordCorrectedValue(v, i) = RecordValue(v) plus RecordValue(v-k*i) for every
+		// k >= 1 with v-k*i >= i: the occurrences it records are all counted, it never
+		// fails for v in range, and it never trips an invariant
+		if len(model) > 0 && len(model) <= 2 {
+			for _, iv := range []int64{0, 1, c.sh.Min, (model[len(model)-1].V + 1) / 2, model[len(model)-1].V} {
+				cur = "New"
+				x := hdrhist.New(c.sh.Min, c.sh.Max, c.sh.Sig)
+				y := hdrhist.New(c.sh.Min, c.sh.Max, c.sh.Sig)
+				var want int64
+				tooMany := false
+				for _, r := range model {
+					if iv > 0 && r.V/iv > 4096 {
+						tooMany = true
+					}
+				}
+				if tooMany {
+					continue
+				}
+				for _, r := range model {
+					cur, curArg = "RecordCorrectedValue", fmt.Sprintf("%d, %d", r.V, iv)
+					if err := x.RecordCorrectedValue(r.V, iv); err != nil {
+						a.fail("record/rejected-in-range/corrected", c, "RecordCorrectedValue", curArg, err.Error(), "nil error for min <= v <= max")
+					}
+					_ = y.RecordValue(r.V)
+					want++
+					if iv > 0 && r.V > iv {
+						for m := r.V - iv; m >= iv; m -= iv {
+							_ = y.RecordValue(m)
+							want++
+						}
+					}
+					a.calls += 2
+				}
+				curArg = nil
+				cur = "Equals"
+				a.asserted += 2
+				if x.TotalCount() != want {
+					a.fail("total/mismatch/RecordCorrectedValue", c, fmt.Sprintf("RecordCorrectedValue(v, %d) for every v; TotalCount()", iv), nil, x.TotalCount(), fmt.Sprint(want))
+				} else if !x.Equals(y) {
+					a.fail("corrected/not-equal/RecordCorrectedValue", c, fmt.Sprintf("RecordCorrectedValue(v, %d) vs the same values recorded one by one", iv), nil, false, "Equals")
+				}
+			}
+		}
+	}
 	if c.aux {
 		cur = "Mean"
 		_ = h.Mean()
